@@ -615,13 +615,18 @@ func ShortFunc(fn *ssa.Function) string {
 			}
 		}
 	}
-	if len(canon.CanonF) > 0 {
+	if len(canon.CanonF) > 0 || len(canon.CanonFull) > 0 {
 		// a renamed function is reported (and looked up in reviewed tables) under its inventory name
 		top := fn
 		for top.Parent() != nil {
 			top = top.Parent()
 		}
 		if obj, ok := top.Object().(*types.Func); ok {
+			if full, ok := canon.CanonFull[obj.Origin()]; ok {
+				// a function that is a method of the inventory with the receiver as first argument
+				topS := top.RelString(originPkg(top))
+				return full + s[len(topS):]
+			}
 			if old, ok := canon.CanonF[obj.Origin()]; ok && old != obj.Name() {
 				topS := top.RelString(originPkg(top))
 				if i := strings.LastIndex(topS, obj.Name()); i >= 0 {
